@@ -259,6 +259,10 @@ pub fn install_panic_hook() {
             .unwrap_or_default();
         if CATCH_DEPTH.with(|d| d.get()) == 0 {
             eprintln!("HARNESS PANIC (outside a monitored call): {msg} @ {loc}");
+        } else if msg.contains("unsafe precondition") {
+            // the standard library's UB check (debug assertions are on): it aborts the process
+            // right after this hook, so say what happened; ./check turns it into a verdict
+            eprintln!("UNSAFE-PRECONDITION inside a monitored cgmath call: {msg} @ {loc}");
         }
         LAST_PANIC.with(|p| *p.borrow_mut() = format!("{msg} @ {loc}"));
     }));
